@@ -147,7 +147,9 @@ func (t *Task) formatCommand(cmd string, portInfos map[string]*PortInfo, inIPs m
 				for _, ip := range subStreamIPs[portName] {
 					path := ip.Path()
 					path = applyPathModifiers(path, placeHolder.modifiers)
-					path = prependParentDirPath(path)
+					if !strInSlice("basename", placeHolder.modifiers) {
+						path = prependParentDirPath(path)
+					}
 					paths = append(paths, path)
 				}
 				replacement = strings.Join(paths, portInfo.joinSep)
